@@ -2,6 +2,7 @@
   Driver operations: decode the case, run the model, evaluate the property oracle on the
   implementation's observed output.
 -/
+import PowHsm.Admin.Pem
 import PowHsm.Basic.Json
 import PowHsm.Spec.C14
 import PowHsm.Ledger.Protocol
@@ -363,6 +364,16 @@ def hexhash (input implOut : Json) : Option (Json × Bool) := do
     | none => true
   pure (model, ok && model.normalize == implOut.normalize)
 
+/-- C15: the root of trust / a chain certificate read from PEM text.  Expected: the element holds
+    exactly the DER bytes the text encodes. -/
+def pem (input implOut : Json) : Option (Json × Bool) := do
+  let text ← (← input.get? "text").asStr?
+  let der ← (← input.get? "der").asBytes?
+  let model : Json := match Pem.load text.toList with
+    | some b => Json.ofBytes b
+    | none => .str "error"
+  pure (model, implOut == Json.ofBytes der)
+
 def strList (j : Option Json) : List String :=
   match j with
   | some (.arr xs) => xs.filterMap Json.asStr?
@@ -486,6 +497,21 @@ def run (op : String) (input implOut : Json) : Option (Json × Bool) :=
   | "admin" => admin input implOut
   | "conc" => conc input implOut
   | "e2e" => e2e input implOut
+  | "pem" => pem input implOut
+  | "line.C10" => line (fun i o => match worldOfJson i with
+      | some w =>
+        -- a request that repairs the link may run the PIN protocol: after any change attempt the
+        -- manager stops, and the PIN file is written only once the device acknowledged the new PIN
+        let as := apdus o.events
+        let isChange (a : Bytes) : Bool := Spec.C09.cmdOf a == 0x08 || Spec.C09.cmdOf a == 0xA5
+        let attempted := as.any isChange
+        let acked := (Spec.C09.pairs as w.script).any fun (a, r) =>
+          isChange a && (match r with
+            | .data b => if Spec.C09.cmdOf a == 0xA5 then (b.getD 2 0).toNat == 1 else true
+            | _ => false)
+        let wrote := o.events.any fun e => match e with | .fileWrite _ _ => true | _ => false
+        (!attempted || o.shutdown) && (!wrote || acked)
+      | none => false) input implOut
   | "line.C14" => line (fun i o =>
       -- a transaction that cannot be decoded, or has an input with an empty script, is answered
       -- -102 without contacting the device: no event of any kind (no APDU, no disconnect, no connect)
